@@ -1,259 +1,328 @@
 /-
-  C16 — property theorems, part 2: the annotation NAMES — valid Kubernetes names, distinct names,
-  id-level isolation assembled from both parts, the witnesses that each guard is necessary, and
-  the regression theorems of the repaired findings F6c / F6f (kopf e916847: no V1 key without room).
+  C16 — property theorems, part 2: the annotation NAMES — valid Kubernetes names (FULL since kopf
+  c2cffd8: `make_edged_name`), names that were valid do not move, distinct names, id-level isolation
+  assembled from both parts, the witnesses that each remaining guard is necessary, and the regression
+  theorems of the repaired findings F6 (c2cffd8), F6c / F6f (e916847), F6i (f95b306).
   Part 1 (`Props/C16.lean`) holds the storage operations.
 -/
 import Kopf.Props.C16
 namespace Kopf.C16
 open Kopf Kopf.J
 
-/-! ## Valid Kubernetes names -/
+/-! ## Valid Kubernetes names
 
-/- The property says: "generated annotation names are ALWAYS valid Kubernetes names", i.e.
-     ∀ p k, validPrefix p → IdOk k → validQualified (v2Key p sfx k) ∧ validQualified (v1Key p sfx k).
-   That statement is FALSE of the code (`edge_witness`, `edge_witness_front`: F6; formerly also
-   F6c — repaired in kopf e916847, see `v1_long_prefix_regression`). What holds is the statement under the
-   exact guard `EdgeOk k` (resp. `EdgeOkV1 p k`) — exact: `valid_name_v2_exact` — hence `_partial`. `GoodSfx` is a fact about the real digest suffix
-   (7 characters `-xxxxxx`, last one of `AQgw`), checked by the oracle on every hashed name. -/
+The property says: "generated annotation names are ALWAYS valid Kubernetes names", i.e.
+  ∀ p k, validPrefix p → (k over the alphabet) → every name `make_keys` yields is a valid qualified name.
+Since kopf c2cffd8 (`make_edged_name`) this holds at FULL strength (before: only for ids whose safe
+form is alphanumeric at both ends — finding F6, now `edge_regression`). The only hypotheses left are
+the alphabet of the id (`IdChars`; `charset_witness` shows it is needed; the EMPTY id is included) and
+the shape of the digest suffix at the (at most three) strings actually hashed — `GoodSfx`, and for V1
+names "no longer than the suffix `v1_fits` measured" — which the harness checks on EVERY suffix the real
+`make_suffix` returns (always `-` + 6 characters, the last one of `AQgw`: `RealSfx`). -/
 
-/-- v2 names (the ones written and read first): under a valid prefix, for an id over the
-    property's alphabet whose safe form is alphanumeric at both ends, with a usable hash suffix
-    when the id is longer than 63: `prefix/name` with a valid name part of at most 63 characters,
-    and at most 253 in total when the prefix has at most 189. -/
-theorem valid_name_v2_partial (p : Str) (sfx : Str → Str) (k : Str) (hp : validPrefix p = true) (hk : IdOk k)
-    (he : EdgeOk k) (hs : k.length > 63 → GoodSfx (sfx k)) :
+/-- **V2 names** (the ones written and read first): under a valid prefix, for EVERY id over the
+    property's alphabet — any length, any first/last character, the empty id included —
+    `prefix/name` with a valid name part (1..63 characters of `[A-Za-z0-9._-]`, alphanumeric at both
+    ends), and at most 253 in total when the prefix has at most 189. -/
+theorem valid_name_v2 (p : Str) (sfx : Str → Str) (k : Str) (hp : validPrefix p = true) (hk : IdChars k)
+    (hs : GoodSfx (sfx k)) :
     ∃ n, v2Key p sfx k = p ++ '/' :: n ∧ validNamePart n = true ∧ n.length ≤ 63 ∧
       validQualified (v2Key p sfx k) = true ∧ (p.length ≤ 189 → (v2Key p sfx k).length ≤ 253) := by
-  have hn := validName_v2 sfx k hk he hs
+  have hn := validName_v2 sfx k hk hs
   have hpn := validPrefix_ne_nil hp
   have e : v2Key p sfx k = p ++ '/' :: v2Name sfx k := by rw [v2Key_eq, pre_of_ne hpn]; simp
   refine ⟨v2Name sfx k, e, hn, (validNamePart_length hn).2, ?_, ?_⟩
   · rw [e]; exact validQualified_intro hp hn
   · intro hl; rw [e]; simp; have := (validNamePart_length hn).2; omega
 
-/-- … and the guard is exact: under a valid prefix (and the facts about the digest suffix) the V2 key
-    is a valid Kubernetes annotation key **if and only if** `EdgeOk k`. F6 is precisely `¬ EdgeOk k`. -/
-theorem valid_name_v2_exact (p : Str) (sfx : Str → Str) (k : Str) (hp : validPrefix p = true) (hk : IdOk k)
-    (hs : k.length > 63 → GoodSfx (sfx k)) :
-    validQualified (v2Key p sfx k) = true ↔ EdgeOk k := by
-  constructor
-  · intro h
-    have hpn := validPrefix_ne_nil hp
-    have e : v2Key p sfx k = p ++ '/' :: v2Name sfx k := by rw [v2Key_eq, pre_of_ne hpn]; simp
-    rw [e, validQualified_split (validPrefix_noslash hp)] at h
-    simp only [Bool.and_eq_true] at h
-    exact edgeOk_of_valid_v2 sfx k hs h.2
-  · intro he
-    obtain ⟨_, _, _, _, hq, _⟩ := valid_name_v2_partial p sfx k hp hk he hs
-    exact hq
-
-/-- v1 names (written next to the v2 names while `v1=True` *and there is room*, `v1Fits`): whenever
-    a V1 key is generated it is a valid name of at most 63 characters in total — under the same
-    `EdgeOkV1` guard (F6) only. The former guard "prefix + `/` + suffix leave room" (finding F6c) is
-    gone with kopf e916847: `make_keys` checks it itself. `(sfx _).length ≤ (sfx []).length` says the
-    digest suffix has one length (the real one: always 7), which is what `v1_fits` measures. -/
-theorem valid_name_v1_partial (p : Str) (sfx : Str → Str) (k : Str) (hp : validPrefix p = true) (hk : IdOk k)
-    (he : EdgeOkV1 p k) (hfit : v1Fits p sfx = true)
-    (hs : 63 < (pre p).length + k.length →
+/-- **V1 names** (written next to the V2 names while `v1=True` *and there is room*, `v1Fits`): whenever
+    a V1 key is generated it is a valid name of at most 63 characters in total — for every id over the
+    alphabet. `(sfx _).length ≤ (sfx []).length` says the digest suffix has one length (the real one:
+    always 7), which is what `v1_fits` measures. -/
+theorem valid_name_v1 (p : Str) (sfx : Str → Str) (k : Str) (hp : validPrefix p = true) (hk : IdChars k)
+    (hfit : v1Fits p sfx = true)
+    (hs : GoodSfx (sfx k) ∧ (sfx k).length ≤ (sfx []).length)
+    (hs1 : 63 < (pre p).length + k.length →
       GoodSfx (sfx (safeKey k)) ∧ (sfx (safeKey k)).length ≤ (sfx []).length) :
     ∃ n, v1Key p sfx k = p ++ '/' :: n ∧ validNamePart n = true ∧ (v1Key p sfx k).length ≤ 63 ∧
       validQualified (v1Key p sfx k) = true := by
   have hroom := (v1Fits_iff p sfx).1 hfit
-  obtain ⟨hn, hl⟩ := validName_v1 p sfx k hk he (by
-    intro hi
-    have hb : 63 < (pre p).length + k.length := by rw [safeKey_length] at hi; omega
-    exact ⟨(hs hb).1, by have := (hs hb).2; omega⟩)
+  obtain ⟨hn, hl⟩ := validName_v1 p sfx k hk hroom hs hs1
   have hpn := validPrefix_ne_nil hp
   have e : v1Key p sfx k = p ++ '/' :: v1Name p sfx k := by rw [v1Key_eq, pre_of_ne hpn]; simp
   refine ⟨v1Name p sfx k, e, hn, ?_, ?_⟩
   · rw [e]; rw [pre_length hpn] at hl; simp; omega
   · rw [e]; exact validQualified_intro hp hn
 
-/-- **every name `make_keys` generates** (for any `v1` flag, any prefix length) is a valid
-    annotation key, under the `EdgeOk` guard (= F6) and the facts about the digest suffix -/
-theorem valid_names_partial (p : Str) (v1 : Bool) (sfx : Str → Str) (k : Str) (hp : validPrefix p = true)
-    (hk : IdOk k) (he : EdgeOk k) (hs2 : k.length > 63 → GoodSfx (sfx k))
+/-- **every name `make_keys` generates** (any `v1` flag, any prefix length, any id over the alphabet)
+    is a valid annotation key -/
+theorem valid_names (p : Str) (v1 : Bool) (sfx : Str → Str) (k : Str) (hp : validPrefix p = true)
+    (hk : IdChars k) (hs : GoodSfx (sfx k) ∧ (sfx k).length ≤ (sfx []).length)
     (hs1 : 63 < (pre p).length + k.length →
       GoodSfx (sfx (safeKey k)) ∧ (sfx (safeKey k)).length ≤ (sfx []).length) :
     ∀ n ∈ makeKeys p v1 sfx k, validQualified n = true ∧ ∃ name, n = p ++ '/' :: name ∧ validNamePart name = true := by
   intro n hn
   rcases makeKeys_subset p v1 sfx k n hn with rfl | ⟨rfl, _, hfit⟩
-  · obtain ⟨name, e, hv, _, hq, _⟩ := valid_name_v2_partial p sfx k hp hk he hs2
+  · obtain ⟨name, e, hv, _, hq, _⟩ := valid_name_v2 p sfx k hp hk hs.1
     exact ⟨hq, name, e, hv⟩
-  · obtain ⟨name, e, hv, _, hq⟩ := valid_name_v1_partial p sfx k hp hk ⟨he.1, fun h => he.2 (by omega)⟩ hfit hs1
+  · obtain ⟨name, e, hv, _, hq⟩ := valid_name_v1 p sfx k hp hk hfit hs hs1
     exact ⟨hq, name, e, hv⟩
 
-/-- the marking keeps the name valid: a marked id ends in `S`, only its first character matters -/
-theorem valid_name_marked (k : Str) (hk : IdOk k) (he : headAlnum (safeKey k) = true) :
-    IdOk (markKey true k) ∧ EdgeOk (markKey true k) := by
-  refine ⟨⟨by simp only [markKey, if_true]; intro e; have := congrArg List.length e; simp [ofDRS] at this, ?_⟩, ?_, fun _ => ?_⟩
-  · simp only [markKey, if_true, List.all_append, Bool.and_eq_true]
-    exact ⟨hk.2, by decide⟩
-  · simp only [markKey, if_true, safeKey, List.map_append]
-    exact headAlnum_append he _
-  · simp only [markKey, if_true, safeKey, List.map_append]
-    rw [lastAlnum_append _ (by decide)]; decide
+/-- the shape of every suffix the real `make_suffix` returns: `-` and six more characters of the name
+    alphabet, the last one alphanumeric (checked by the harness on every call) -/
+def RealSfx (s : Str) : Prop := s.length = 7 ∧ s.head? = some '-' ∧ s.all isNameChar = true ∧ lastAlnum s = true
 
-/- The property says: "names are distinct for long ids that share a prefix", i.e.
-     ∀ k ≠ k' (both longer than 63), v2Key p sfx k ≠ v2Key p sfx k'.
-   FALSE of the code for the real 32-bit digest (`collision_witness` + the birthday search replayed on
-   every run: F6b), and for ids in general (`safe_form_witness` F6d, `forged_witness` F6e). The
-   theorems below are what is left: the cut-and-append never loses a difference the digest (resp. the
-   safe form) still shows — they do NOT establish the clause, hence `_partial`. -/
+instance (s : Str) : Decidable (RealSfx s) := by unfold RealSfx; infer_instance
 
-/-- two ids longer than 63 characters (sharing any prefix) whose hash suffixes differ (and have the
-    same length, as the real ones do) get different v2 names -/
+theorem goodSfx_of_real {s : Str} (h : RealSfx s) : GoodSfx s := ⟨by have := h.1; omega, by have := h.1; omega, h.2.2.1, h.2.2.2⟩
+
+/-- **the clause as the property states it**, with the real suffix shape at the three strings hashed
+    (the id, its safe form, the empty string of `v1_fits`), for marked (ReplicaSet-of-Deployment) and
+    unmarked ids alike: every generated name is a valid Kubernetes annotation key. -/
+theorem valid_names_real (p : Str) (v1 drs : Bool) (sfx : Str → Str) (k : Str) (hp : validPrefix p = true)
+    (hk : IdChars k) (h0 : RealSfx (sfx [])) (h1 : RealSfx (sfx (markKey drs k)))
+    (h2 : RealSfx (sfx (safeKey (markKey drs k)))) :
+    ∀ n ∈ makeKeys p v1 sfx (markKey drs k), validQualified n = true := by
+  have hk' : IdChars (markKey drs k) := by
+    cases drs with
+    | false => simpa [markKey] using hk
+    | true =>
+      simp only [markKey, if_true, IdChars, List.all_append, Bool.and_eq_true]
+      exact ⟨hk, by decide⟩
+  intro n hn
+  exact (valid_names p v1 sfx _ hp hk' ⟨goodSfx_of_real h1, by rw [h1.1, h0.1]; exact Nat.le_refl 7⟩
+    (fun _ => ⟨goodSfx_of_real h2, by rw [h2.1, h0.1]; exact Nat.le_refl 7⟩) n hn).1
+
+/-! ## Names that were valid do not move ("no persisted state is orphaned", kopf c2cffd8)
+
+`makeKeysOld` is `make_keys` as it was before c2cffd8 (the raw names, no `make_edged_name`). -/
+
+/-- **`make_edged_name` is the identity on valid name parts** (indeed on every name with alphanumeric
+    edges), whatever the id, the hash and `max_length` -/
+theorem edged_id_of_valid (sfx : Str → Str) (name key : Str) (m : Int) (h : validNamePart name = true) :
+    edgedName sfx name key m = name :=
+  edgedName_of_edges sfx key m (validNamePart_edges h).1 (validNamePart_edges h).2
+
+/-- **an operator upgraded across c2cffd8 finds its records**: if the names an id had before the fix
+    were valid (so that something could have been stored under them), `make_keys` yields exactly
+    the same names, in the same order -/
+theorem names_unchanged_of_valid (p : Str) (v1 : Bool) (sfx : Str → Str) (k : Str)
+    (h2 : validNamePart (v2Raw sfx k) = true)
+    (h1 : v1 = true → v1Fits p sfx = true → validNamePart (v1Raw p sfx k) = true) :
+    makeKeys p v1 sfx k = makeKeysOld p v1 sfx k := by
+  have e2 : v2Key p sfx k = pre p ++ v2Raw sfx k := by
+    rw [v2Key_eq, v2Name, edged_id_of_valid sfx _ k 63 h2]
+  unfold makeKeys makeKeysOld
+  by_cases hc : (v1 && v1Fits p sfx) = true
+  · simp only [Bool.and_eq_true] at hc
+    have e1 : v1Key p sfx k = pre p ++ v1Raw p sfx k := by
+      rw [v1Key_eq, v1Name, edged_id_of_valid sfx _ k _ (h1 hc.1 hc.2)]
+    rw [e1, e2]
+  · have hc' : (v1 && v1Fits p sfx) = false := by simpa using hc
+    simp only [hc', Bool.false_and, Bool.false_eq_true, if_false, e2]
+
+/-- … and conversely only names that were never storable have changed -/
+theorem changed_only_invalid (p : Str) (sfx : Str → Str) (k : Str) :
+    (v2Name sfx k ≠ v2Raw sfx k → validNamePart (v2Raw sfx k) = false) ∧
+    (v1Name p sfx k ≠ v1Raw p sfx k → validNamePart (v1Raw p sfx k) = false) := by
+  constructor
+  · intro h
+    cases hv : validNamePart (v2Raw sfx k) with
+    | false => rfl
+    | true => exact absurd (edged_id_of_valid sfx _ k 63 hv) h
+  · intro h
+    cases hv : validNamePart (v1Raw p sfx k) with
+    | false => rfl
+    | true => exact absurd (edged_id_of_valid sfx _ k _ hv) h
+
+/-! ## Distinct names
+
+The property says: "names are distinct for long ids that share a prefix", i.e.
+  ∀ k ≠ k' (both longer than 63), v2Key p sfx k ≠ v2Key p sfx k'.
+FALSE of the code for the real 32-bit digest (`collision_witness` + the birthday search replayed on
+every run: F6b), and for ids in general (`safe_form_witness` F6d, `forged_*_witness` F6e). The
+theorems below are what is left: the cut-and-append never loses a difference the digest (resp. the
+safe form) still shows — they do NOT establish the clause, hence `_partial`. `forged_exact` shows
+that across the two kinds of names (verbatim / re-formed) nothing but F6e can go wrong. -/
+
+/-- two ids longer than 63 characters (sharing any prefix) whose hash suffixes differ (usable, of the
+    same length, as the real ones are) get different v2 names -/
 theorem distinct_partial (p : Str) (sfx : Str → Str) (k k' : Str) (hk : k.length > 63) (hk' : k'.length > 63)
-    (hl : (sfx k).length = (sfx k').length) (hl63 : (sfx k).length ≤ 63) (hne : sfx k ≠ sfx k') :
+    (hl : (sfx k).length = (sfx k').length) (hl62 : (sfx k).length ≤ 62)
+    (ha : lastAlnum (sfx k) = true) (ha' : lastAlnum (sfx k') = true) (hne : sfx k ≠ sfx k') :
     v2Key p sfx k ≠ v2Key p sfx k' := by
   intro e
-  rw [v2Key_eq, v2Key_eq, v2Name_long hk, v2Name_long hk'] at e
-  have e2 := List.append_cancel_left e
-  have := List.append_inj e2 (by
-    rw [v2Name_long_length hk hl63, v2Name_long_length hk' (by omega), hl])
+  obtain ⟨e1, l1⟩ := v2Name_long hk hl62 ha
+  obtain ⟨e2, l2⟩ := v2Name_long hk' (by omega) ha'
+  rw [v2Key_eq, v2Key_eq, e1, e2] at e
+  have := List.append_inj (List.append_cancel_left e) (by rw [l1, l2, hl])
   exact hne this.2
 
-/-- ids of at most 63 characters with different safe forms get different v2 names -/
+/-- ids of at most 63 characters, alphanumeric at both ends, with different safe forms get different v2 names -/
 theorem distinct_short_partial (p : Str) (sfx : Str → Str) (k k' : Str) (hk : k.length ≤ 63) (hk' : k'.length ≤ 63)
-    (hne : safeKey k ≠ safeKey k') : v2Key p sfx k ≠ v2Key p sfx k' := by
+    (hv : Verbatim k) (hv' : Verbatim k') (hne : safeKey k ≠ safeKey k') : v2Key p sfx k ≠ v2Key p sfx k' := by
   intro e
-  rw [v2Key_eq, v2Key_eq, v2Name_short hk, v2Name_short hk'] at e
+  rw [v2Key_eq, v2Key_eq, v2Name_verbatim hk hv, v2Name_verbatim hk' hv'] at e
   exact hne (List.append_cancel_left e)
+
+/-- **all re-formed names** (ids longer than 63 characters AND — new with c2cffd8 — ids whose safe
+    form has a bad edge): two such ids get different v2 names as soon as their digests (of the id
+    and of its safe form; all of one length) are pairwise different -/
+theorem distinct_reformed_partial (p : Str) (sfx : Str → Str) (k k' : Str)
+    (hr : k.length > 63 ∨ ¬ Verbatim k) (hr' : k'.length > 63 ∨ ¬ Verbatim k')
+    (hd : ∀ t ∈ [sfx k, sfx (safeKey k)], ∀ t' ∈ [sfx k', sfx (safeKey k')], t.length = t'.length ∧ t ≠ t') :
+    v2Key p sfx k ≠ v2Key p sfx k' := by
+  intro e
+  have h := names_disjoint_reformed (p := p) hr hr' hd false (v2Key p sfx k) (by simp [makeKeys])
+    (v2Key p sfx k') (by simp [makeKeys])
+  exact h e.symm
+
+/-- **across the two kinds, exactly F6e**: an id `k'` of at most 63 characters with alphanumeric edges
+    (taken verbatim) shares its v2 name with ANY other id `k` if and only if its safe form spells the
+    generated name of `k` -/
+theorem forged_exact (p : Str) (sfx : Str → Str) (k k' : Str) (hk' : k'.length ≤ 63) (hv' : Verbatim k') :
+    v2Key p sfx k' = v2Key p sfx k ↔ safeKey k' = v2Name sfx k := by
+  rw [v2Key_eq, v2Key_eq, v2Name_verbatim hk' hv']
+  exact ⟨fun e => List.append_cancel_left e, fun e => by rw [e]⟩
 
 /-! ## Id-level isolation (assembled from both parts)
 
 `make_keys` yields one name (`v1=False`, or no room for V1 keys: prefix of 55+ characters, or an id
-short enough to be its own V1 name) or two (V2 and a cut-and-hashed V1 name). Ids are compared
-after marking. What is proved: isolation between two ids of the same "band"; what is NOT provable
-is the mixed case, where one id may spell the hashed name of the other (`forged_witness`,
-`forged_v1_witness`: F6e), and ids with equal safe forms or digests (F6d, F6b). -/
+short enough to be its own V1 name) or two (V2 and a cut-and-hashed / re-edged V1 name). Ids are
+compared after marking. What is proved: isolation between two ids of the same kind — both taken
+verbatim, both verbatim with a hashed V1 name, both re-formed; what is NOT provable is the mixed
+case, where one id may spell the generated name of the other (`forged_witness`, `forged_v1_witness`,
+`forged_edged_witness`: F6e), and ids with equal safe forms or digests (F6d, F6b). -/
 
-/-- **one name each, ids of at most 63 characters**: handlers whose *safe forms* differ do not
-    disturb each other — a store or a purge of `k` leaves what `k'` reads unchanged (`k'` must
-    not spell the `kopf-managed` marker). Holds for `v1=False`, for every prefix without room for
-    V1 keys (55+ characters: the repaired F6f), and for ids that are their own V1 names. -/
+/-- **one name each, ids of at most 63 characters taken verbatim**: handlers whose *safe forms*
+    differ do not disturb each other — a store or a purge of `k` leaves what `k'` reads unchanged
+    (`k'` must not spell the `kopf-managed` marker). Holds for `v1=False`, for every prefix without
+    room for V1 keys (55+ characters: the repaired F6f), and for ids that are their own V1 names. -/
 theorem isolation_ids_short_partial (env : Env) (c : AnnCfg) (hp : c.pfx ≠ [])
     (body patch0 ps pp : J) (k k' : Str) (r : Rec) (hw : wf patch0 = true) (hs : MarkStable patch0)
     (hone : c.v1 = false ∨ v1Fits c.pfx env.sfx = false ∨
       ((pre c.pfx).length + (markKey (isDRS body) k).length ≤ 63 ∧
        (pre c.pfx).length + (markKey (isDRS body) k').length ≤ 63))
     (hk : (markKey (isDRS body) k).length ≤ 63) (hk' : (markKey (isDRS body) k').length ≤ 63)
+    (hv : Verbatim (markKey (isDRS body) k)) (hv' : Verbatim (markKey (isDRS body) k'))
     (hne : safeKey k ≠ safeKey k')
     (hm : safeKey (markKey (isDRS body) k') ≠ "kopf-managed".toList)
     (hstore : annStore env c body patch0 k r = .ok ps) (hpurge : annPurge env c body patch0 k = .ok pp) :
     annFetch env c (mergePatch body ps) k' = annFetch env c (mergePatch body patch0) k' ∧
     annFetch env c (mergePatch body pp) k' = annFetch env c (mergePatch body patch0) k' := by
   have hnk : annNames env c.pfx c.v1 body k = [v2Key c.pfx env.sfx (markKey (isDRS body) k)] :=
-    makeKeys_single (by rcases hone with h | h | h; exact Or.inl h; exact Or.inr (Or.inl h); exact Or.inr (Or.inr h.1))
+    makeKeys_single (by rcases hone with h | h | h; exact Or.inl h; exact Or.inr (Or.inl h); exact Or.inr (Or.inr ⟨h.1, hv⟩))
   have hnk' : annNames env c.pfx c.v1 body k' = [v2Key c.pfx env.sfx (markKey (isDRS body) k')] :=
-    makeKeys_single (by rcases hone with h | h | h; exact Or.inl h; exact Or.inr (Or.inl h); exact Or.inr (Or.inr h.2))
+    makeKeys_single (by rcases hone with h | h | h; exact Or.inl h; exact Or.inr (Or.inl h); exact Or.inr (Or.inr ⟨h.2, hv'⟩))
   have hd : v2Key c.pfx env.sfx (markKey (isDRS body) k') ≠ v2Key c.pfx env.sfx (markKey (isDRS body) k) :=
-    fun e => distinct_short_partial c.pfx env.sfx _ _ hk hk' (safeKey_markKey_ne hne) e.symm
+    fun e => distinct_short_partial c.pfx env.sfx _ _ hk hk' hv hv' (safeKey_markKey_ne hne) e.symm
   refine ⟨isolation_other_handler env c body patch0 ps k k' r hw hs hstore ?_ ?_,
     isolation_other_handler_purge env c body patch0 pp k k' hw hs hpurge ?_⟩
   · intro n hn1 n' hn2; rw [hnk] at hn1; rw [hnk'] at hn2; simp at hn1 hn2; subst hn1; subst hn2; exact hd
   · intro n' hn2; rw [hnk'] at hn2; simp at hn2; subst hn2
-    exact v2Key_ne_marker_short hp env.sfx hk' hm
+    exact v2Key_ne_marker_short hp env.sfx hk' hv' hm
   · intro n hn1 n' hn2; rw [hnk] at hn1; rw [hnk'] at hn2; simp at hn1 hn2; subst hn1; subst hn2; exact hd
 
-/-- **one name each, ids longer than 63 characters** (sharing any prefix), as long as their
-    digests differ (`collision_witness`, F6b, is the other case) -/
-theorem isolation_ids_long_partial (env : Env) (c : AnnCfg) (hp : c.pfx ≠ [])
+/-- **both ids re-formed** (longer than 63 characters — sharing any prefix —, or with a bad first/last
+    character: the ids c2cffd8 made storable), one or two names each, every prefix, both `v1` settings:
+    as long as their digests — of the id and of its safe form, four suffixes of one length — are
+    pairwise different (`collision_witness`, F6b, is the other case), the two handlers share no
+    annotation, and a store or a purge of `k` leaves what `k'` reads unchanged. `hm`: no digest of
+    `k'` is the end of `kopf-managed` (the real ones begin with `-`). -/
+theorem isolation_ids_reformed_partial (env : Env) (c : AnnCfg) (hp : c.pfx ≠ [])
     (body patch0 ps pp : J) (k k' : Str) (r : Rec) (hw : wf patch0 = true) (hs : MarkStable patch0)
-    (hone : c.v1 = false ∨ v1Fits c.pfx env.sfx = false)
-    (hk : (markKey (isDRS body) k).length > 63) (hk' : (markKey (isDRS body) k').length > 63)
-    (hl : (env.sfx (markKey (isDRS body) k)).length = (env.sfx (markKey (isDRS body) k')).length)
-    (hl63 : (env.sfx (markKey (isDRS body) k)).length ≤ 63)
-    (hne : env.sfx (markKey (isDRS body) k) ≠ env.sfx (markKey (isDRS body) k'))
+    (hr : (markKey (isDRS body) k).length > 63 ∨ ¬ Verbatim (markKey (isDRS body) k))
+    (hr' : (markKey (isDRS body) k').length > 63 ∨ ¬ Verbatim (markKey (isDRS body) k'))
+    (hd : ∀ t ∈ [env.sfx (markKey (isDRS body) k), env.sfx (safeKey (markKey (isDRS body) k))],
+          ∀ t' ∈ [env.sfx (markKey (isDRS body) k'), env.sfx (safeKey (markKey (isDRS body) k'))],
+            t.length = t'.length ∧ t ≠ t')
+    (hm : ∀ t' ∈ [env.sfx (markKey (isDRS body) k'), env.sfx (safeKey (markKey (isDRS body) k'))],
+            t'.isSuffixOf "kopf-managed".toList = false)
     (hstore : annStore env c body patch0 k r = .ok ps) (hpurge : annPurge env c body patch0 k = .ok pp) :
     annFetch env c (mergePatch body ps) k' = annFetch env c (mergePatch body patch0) k' ∧
     annFetch env c (mergePatch body pp) k' = annFetch env c (mergePatch body patch0) k' := by
-  have hn : ∀ x, annNames env c.pfx c.v1 body x = [v2Key c.pfx env.sfx (markKey (isDRS body) x)] :=
-    fun x => makeKeys_single (by rcases hone with h | h; exact Or.inl h; exact Or.inr (Or.inl h))
-  have hd : v2Key c.pfx env.sfx (markKey (isDRS body) k') ≠ v2Key c.pfx env.sfx (markKey (isDRS body) k) :=
-    fun e => distinct_partial c.pfx env.sfx _ _ hk hk' hl hl63 hne e.symm
-  refine ⟨isolation_other_handler env c body patch0 ps k k' r hw hs hstore ?_ ?_,
-    isolation_other_handler_purge env c body patch0 pp k k' hw hs hpurge ?_⟩
-  · intro n hn1 n' hn2; rw [hn] at hn1 hn2; simp at hn1 hn2; subst hn1; subst hn2; exact hd
-  · intro n' hn2; rw [hn] at hn2; simp at hn2; subst hn2
-    exact v2Key_ne_marker_long hp env.sfx hk' (by omega)
-  · intro n hn1 n' hn2; rw [hn] at hn1 hn2; simp at hn1 hn2; subst hn1; subst hn2; exact hd
+  have hdisj : ∀ n ∈ annNames env c.pfx c.v1 body k, ∀ n' ∈ annNames env c.pfx c.v1 body k', n' ≠ n :=
+    names_disjoint_reformed hr hr' hd c.v1
+  have hmark : ∀ n' ∈ annNames env c.pfx c.v1 body k', n' ≠ markerName c.pfx := by
+    intro n' hn'
+    obtain ⟨e, rfl, he⟩ := names_reformed_suffix c.pfx c.v1 env.sfx hr' n' hn'
+    apply name_ne_marker hp
+    rcases he with he | he
+    · exact ne_marker_of_suffix he (hm _ (by simp))
+    · exact ne_marker_of_suffix he (hm _ (by simp))
+  exact ⟨isolation_other_handler env c body patch0 ps k k' r hw hs hstore hdisj hmark,
+    isolation_other_handler_purge env c body patch0 pp k k' hw hs hpurge hdisj⟩
 
-/-- **two names each (`v1=True` with room), both ids too long to be their own V1 names**: with
-    different V2 names (safe forms differ, resp. digests differ) and different, equally long digests
-    of the safe forms, the two handlers share no annotation at all — for every prefix. The V1 name
-    of one can no longer be the V2 name of the other (F6f): their lengths differ. `hm` / `h51` keep
-    `k'` off the `kopf-managed` marker (F6g, `marker_witness`): a 12-character V1 name needs `|prefix/| = 51`. -/
+/-- **two names each (`v1=True` with room), both ids taken verbatim as V2 names but too long to be
+    their own V1 names** (under the default prefix: 47..63 characters): with different safe forms and
+    different, equally long digests of the safe forms, the two handlers share no annotation at all —
+    for every prefix. The V1 name of one cannot be the V2 name of the other: their lengths differ.
+    `hm` / `h51` keep `k'` off the `kopf-managed` marker (F6g, `marker_witness`): a 12-character V1
+    name needs `|prefix/| = 51`. -/
 theorem isolation_ids_v1_hashed_partial (env : Env) (c : AnnCfg) (hp : c.pfx ≠ [])
     (body patch0 ps pp : J) (k k' : Str) (r : Rec) (hw : wf patch0 = true) (hs : MarkStable patch0)
+    (hk : (markKey (isDRS body) k).length ≤ 63) (hk' : (markKey (isDRS body) k').length ≤ 63)
+    (hv : Verbatim (markKey (isDRS body) k)) (hv' : Verbatim (markKey (isDRS body) k'))
     (hb : 63 < (pre c.pfx).length + (markKey (isDRS body) k).length)
     (hb' : 63 < (pre c.pfx).length + (markKey (isDRS body) k').length)
     (hroom : (pre c.pfx).length + (env.sfx (safeKey (markKey (isDRS body) k))).length < 63)
     (hsl : (env.sfx (safeKey (markKey (isDRS body) k))).length = (env.sfx (safeKey (markKey (isDRS body) k'))).length)
+    (hla : lastAlnum (env.sfx (safeKey (markKey (isDRS body) k))) = true)
+    (hla' : lastAlnum (env.sfx (safeKey (markKey (isDRS body) k'))) = true)
     (hsne : env.sfx (safeKey (markKey (isDRS body) k)) ≠ env.sfx (safeKey (markKey (isDRS body) k')))
-    (hv2 : ((markKey (isDRS body) k).length ≤ 63 ∧ (markKey (isDRS body) k').length ≤ 63 ∧ safeKey k ≠ safeKey k') ∨
-      ((markKey (isDRS body) k).length > 63 ∧ (markKey (isDRS body) k').length > 63 ∧
-       (env.sfx (markKey (isDRS body) k)).length = (env.sfx (markKey (isDRS body) k')).length ∧
-       (env.sfx (markKey (isDRS body) k)).length ≤ 63 ∧
-       env.sfx (markKey (isDRS body) k) ≠ env.sfx (markKey (isDRS body) k')))
-    (hm : (markKey (isDRS body) k').length ≤ 63 → safeKey (markKey (isDRS body) k') ≠ "kopf-managed".toList)
+    (hne : safeKey k ≠ safeKey k')
+    (hm : safeKey (markKey (isDRS body) k') ≠ "kopf-managed".toList)
     (h51 : (pre c.pfx).length ≠ 51)
     (hstore : annStore env c body patch0 k r = .ok ps) (hpurge : annPurge env c body patch0 k = .ok pp) :
     annFetch env c (mergePatch body ps) k' = annFetch env c (mergePatch body patch0) k' ∧
     annFetch env c (mergePatch body pp) k' = annFetch env c (mergePatch body patch0) k' := by
-  have hdisj : ∀ n ∈ annNames env c.pfx c.v1 body k, ∀ n' ∈ annNames env c.pfx c.v1 body k', n' ≠ n := by
-    rcases hv2 with ⟨h1, h2, h3⟩ | ⟨h1, h2, h3, h4, h5⟩
-    · exact names_disjoint_hashed hp hb hb' hroom hsl hsne (by omega) (by omega)
-        (distinct_short_partial c.pfx env.sfx _ _ h1 h2 (safeKey_markKey_ne h3)) c.v1
-    · exact names_disjoint_hashed hp hb hb' hroom hsl hsne (fun _ => h4) (fun _ => by omega)
-        (distinct_partial c.pfx env.sfx _ _ h1 h2 h3 h4 h5) c.v1
+  have hdisj : ∀ n ∈ annNames env c.pfx c.v1 body k, ∀ n' ∈ annNames env c.pfx c.v1 body k', n' ≠ n :=
+    names_disjoint_hashed hk hk' hv hv' hb hb' hroom hsl hla hla' hsne (safeKey_markKey_ne hne) c.v1
   have hroom' : (pre c.pfx).length + (env.sfx (safeKey (markKey (isDRS body) k'))).length < 63 := by omega
   have hmark : ∀ n' ∈ annNames env c.pfx c.v1 body k', n' ≠ markerName c.pfx := by
     intro n' hn'
     rcases makeKeys_subset c.pfx c.v1 env.sfx _ n' hn' with rfl | ⟨rfl, _, _⟩
-    · by_cases h63 : (markKey (isDRS body) k').length ≤ 63
-      · exact v2Key_ne_marker_short hp env.sfx h63 (hm h63)
-      · rcases hv2 with ⟨_, h2, _⟩ | ⟨_, h2, h3, h4, _⟩
-        · exact absurd h2 h63
-        · exact v2Key_ne_marker_long hp env.sfx h2 (by omega)
-    · exact v1Key_ne_marker_hashed hp hb' hroom' h51
+    · exact v2Key_ne_marker_short hp env.sfx hk' hv' hm
+    · exact v1Key_ne_marker_hashed hp hb' hroom' hla' h51
   exact ⟨isolation_other_handler env c body patch0 ps k k' r hw hs hstore hdisj hmark,
     isolation_other_handler_purge env c body patch0 pp k k' hw hs hpurge hdisj⟩
 
-/-! ## Each hypothesis is necessary: witnesses (the open findings F6, F6b, F6d, F6e) -/
+/-! ## Regressions of the repaired finding F6 (kopf c2cffd8) -/
 
-/-- **F6** `EdgeOk` is necessary: the id `fn/` (in the alphabet, any hash) gives
-    `kopf.zalando.org/fn.`, which is not a valid annotation key. -/
-theorem edge_witness (sfx : Str → Str) :
-    validPrefix kz = true ∧ IdOk "fn/".toList ∧ ¬ EdgeOk "fn/".toList ∧
-    v2Key kz sfx "fn/".toList = "kopf.zalando.org/fn.".toList ∧
-    validQualified (v2Key kz sfx "fn/".toList) = false := by
-  have e : v2Key kz sfx "fn/".toList = "kopf.zalando.org/fn.".toList := by
-    simp [v2Key]; decide
-  refine ⟨by decide, by decide, by decide, e, ?_⟩
-  rw [e]; decide
+/-- **F6 fixed**: the former witnesses `fn/` (safe form ends with `.`) and `<locals>.fn` on a
+    ReplicaSet (safe form starts with `_`) now get valid names for EVERY hash with a usable suffix … -/
+theorem edge_regression (sfx : Str → Str) (h1 : GoodSfx (sfx "fn/".toList))
+    (h2 : GoodSfx (sfx (markKey true "<locals>.fn".toList))) :
+    ¬ Verbatim "fn/".toList ∧ ¬ Verbatim (markKey true "<locals>.fn".toList) ∧
+    validQualified (v2Key kz sfx "fn/".toList) = true ∧
+    validQualified (v2Key kz sfx (markKey true "<locals>.fn".toList)) = true := by
+  refine ⟨by decide, by decide, ?_, ?_⟩
+  · obtain ⟨_, _, _, _, hq, _⟩ := valid_name_v2 kz sfx "fn/".toList (by decide) (by decide) h1
+    exact hq
+  · obtain ⟨_, _, _, _, hq, _⟩ := valid_name_v2 kz sfx (markKey true "<locals>.fn".toList) (by decide) (by decide) h2
+    exact hq
 
-/-- … and at the front (`<locals>.fn` → `_locals_.fn`), also on a marked (ReplicaSet) key. -/
-theorem edge_witness_front (sfx : Str → Str) :
-    IdOk "<locals>.fn".toList ∧
-    validQualified (v2Key kz sfx (markKey true "<locals>.fn".toList)) = false := by
-  have e : v2Key kz sfx (markKey true "<locals>.fn".toList) = "kopf.zalando.org/_locals_.fn-ofDRS".toList := by
-    simp [v2Key, markKey, ofDRS]; decide
-  refine ⟨by decide, ?_⟩
-  rw [e]; decide
+/-- … namely (for a hash answering `-AAAAAQ`) the bad edge replaced by `x` and the digest of the ORIGINAL
+    id appended; the good names next to them (`fn`, `fn.x`) are untouched. -/
+example :
+    v2Key kz (constSfx "-AAAAAQ") "fn/".toList = "kopf.zalando.org/fnx-AAAAAQ".toList ∧
+    v2Key kz (constSfx "-AAAAAQ") (markKey true "<locals>.fn".toList) = "kopf.zalando.org/xlocals_.fn-ofDRS-AAAAAQ".toList ∧
+    v2Key kz (constSfx "-AAAAAQ") [] = "kopf.zalando.org/x-AAAAAQ".toList ∧
+    v2Key kz (constSfx "-AAAAAQ") "fn".toList = "kopf.zalando.org/fn".toList ∧
+    makeKeys kz true (constSfx "-AAAAAQ") "fn/x".toList = makeKeysOld kz true (constSfx "-AAAAAQ") "fn/x".toList := by
+  decide
 
 /-- `GoodSfx` is necessary — a statement about a HYPOTHETICAL digest suffix (the real one always is `GoodSfx`;
     this is not a behaviour of the code and is not replayed on it): with a suffix ending in `.` a long,
     otherwise fine id gets an invalid name. -/
 theorem sfx_witness :
-    IdOk (xs 64) ∧ EdgeOk (xs 64) ∧ ¬ GoodSfx (constSfx "-ab." (xs 64)) ∧
+    IdChars (xs 64) ∧ ¬ GoodSfx (constSfx "-ab." (xs 64)) ∧
     validQualified (v2Key kz (constSfx "-ab.") (xs 64)) = false := by
   decide
 
 /-! ### Regressions of the repaired findings F6c / F6f (kopf e916847)
 
-`make_v1_key` itself is unchanged: called with a prefix of 55+ characters its cut `63 - |prefix/| - 7`
+`make_v1_key` itself is unchanged there: called with a prefix of 55+ characters its cut `63 - |prefix/| - 7`
 is still zero or negative (a Python slice from the end). It is no longer *called* then. -/
 
 /-- **F6c fixed**: the former witnesses. With the valid 55- and 60-character prefixes (and the real
@@ -282,49 +351,96 @@ example :
       ≠ v2Key (List.replicate 63 'a') sfx (safeKey ("a/".toList ++ xs 62)) := by
   decide
 
+/-! ## Each remaining hypothesis is necessary: witnesses (the open findings F6b, F6d, F6e) -/
+
 /-- **F6b** `sfx k ≠ sfx k'` in `distinct_partial` is necessary: whenever the suffixes of two long ids
     collide and the ids agree on the characters kept, the v2 names coincide … -/
 theorem collision_witness (p : Str) (sfx : Str → Str) (k k' : Str) (hk : k.length > 63) (hk' : k'.length > 63)
-    (hs : sfx k = sfx k')
+    (hl62 : (sfx k).length ≤ 62) (ha : lastAlnum (sfx k) = true) (hs : sfx k = sfx k')
     (ht : (safeKey k).take (63 - (sfx k).length) = (safeKey k').take (63 - (sfx k).length)) :
     v2Key p sfx k = v2Key p sfx k' := by
-  rw [v2Key_eq, v2Key_eq, v2Name_long hk, v2Name_long hk', ← hs, ht]
+  rw [v2Key_eq, v2Key_eq, (v2Name_long hk hl62 ha).1, (v2Name_long hk' (by rw [← hs]; exact hl62) (by rw [← hs]; exact ha)).1,
+    ← hs, ht]
 
-/-- … and such pairs exist for any hash whose range is smaller than its domain (here: constant). -/
-example : xs 64 ≠ xs 65 ∧ v2Key kz (constSfx "-AAAAAQ") (xs 64) = v2Key kz (constSfx "-AAAAAQ") (xs 65) := by
+/-- … and such pairs exist for any hash whose range is smaller than its domain (here: constant) — also
+    among the ids of at most 63 characters that c2cffd8 made storable (`_x…x0` / `_x…x1`: same first 56
+    characters after the repair of the edge, same digest). -/
+example : xs 64 ≠ xs 65 ∧ v2Key kz (constSfx "-AAAAAQ") (xs 64) = v2Key kz (constSfx "-AAAAAQ") (xs 65) ∧
+    ('_' :: xs 60 ++ ['0']) ≠ ('_' :: xs 60 ++ ['1']) ∧
+    safeKey ('_' :: xs 60 ++ ['0']) ≠ safeKey ('_' :: xs 60 ++ ['1']) ∧
+    v2Key kz (constSfx "-AAAAAQ") ('_' :: xs 60 ++ ['0']) = v2Key kz (constSfx "-AAAAAQ") ('_' :: xs 60 ++ ['1']) := by
   decide
 
-/-- **F6d** `safeKey k ≠ safeKey k'` in `distinct_short_partial` is necessary: ids with the same safe form
-    (at most 63 characters) get the same names under every configuration and hash … -/
+/-- **F6d beyond the own V1 name**: a cut-and-hashed V1 key depends on the id only through its safe form,
+    so two ids of ANY length with equal safe forms share their V1 name (their V2 names differ as soon as
+    the digests of the ids do) … -/
+theorem safe_form_long_v1_witness (p : Str) (sfx : Str → Str) (k k' : Str) (hs : safeKey k = safeKey k')
+    (hb : 63 < (pre p).length + k.length) (hroom : (pre p).length + (sfx (safeKey k)).length < 63)
+    (hla : lastAlnum (sfx (safeKey k)) = true) :
+    v1Key p sfx k = v1Key p sfx k' := by
+  have hlen : k'.length = k.length := by rw [← safeKey_length k', ← hs, safeKey_length]
+  rw [v1Key_eq, v1Key_eq, (v1Name_hashed hb hroom hla).1,
+    (v1Name_hashed (k := k') (by omega) (by rw [← hs]; exact hroom) (by rw [← hs]; exact hla)).1, hs]
+
+/-- **F6d** `safeKey k ≠ safeKey k'` in `distinct_short_partial` is necessary: ids taken verbatim with the
+    same safe form (at most 63 characters) get the same names under every configuration and hash
+    (`hh`: when the V1 name is cut-and-hashed there is room for a usable digest — always, in the code) … -/
 theorem safe_form_witness (p : Str) (v1 : Bool) (sfx : Str → Str) (k k' : Str)
-    (hs : safeKey k = safeKey k') (hk : k.length ≤ 63) :
+    (hs : safeKey k = safeKey k') (hk : k.length ≤ 63) (hv : Verbatim k)
+    (hh : 63 < (pre p).length + k.length →
+      (pre p).length + (sfx (safeKey k)).length < 63 ∧ lastAlnum (sfx (safeKey k)) = true) :
     makeKeys p v1 sfx k = makeKeys p v1 sfx k' := by
-  have hk' : k'.length ≤ 63 := by
-    rw [← safeKey_length k', ← hs, safeKey_length]; exact hk
+  have hlen : k'.length = k.length := by rw [← safeKey_length k', ← hs, safeKey_length]
+  have hk' : k'.length ≤ 63 := by omega
+  have hv' : Verbatim k' := by unfold Verbatim; rw [← hs]; exact hv
   have e2 : v2Key p sfx k = v2Key p sfx k' := by
-    rw [v2Key_eq, v2Key_eq, v2Name_short hk, v2Name_short hk', hs]
+    rw [v2Key_eq, v2Key_eq, v2Name_verbatim hk hv, v2Name_verbatim hk' hv', hs]
   have e1 : v1Key p sfx k = v1Key p sfx k' := by
-    simp only [v1Key, hs]
+    by_cases hb : 63 < (pre p).length + k.length
+    · exact safe_form_long_v1_witness p sfx k k' hs hb (hh hb).1 (hh hb).2
+    · rw [v1Key_eq, v1Key_eq, v1Name_verbatim (by omega) hv, v1Name_verbatim (by omega) hv', hs]
   simp only [makeKeys, e1, e2]
 
-/-- … e.g. the field handler `fn/spec.field` and the sub-handler path `fn/spec/field`. -/
+/-- … e.g. the field handler `fn/spec.field` and the sub-handler path `fn/spec/field`. With a bad edge
+    the digest of the ORIGINAL id keeps them apart since c2cffd8 (`fn/spec.field/` vs `fn/spec/field/`). -/
 example : "fn/spec.field".toList ≠ "fn/spec/field".toList ∧
-    safeKey "fn/spec.field".toList = safeKey "fn/spec/field".toList := by decide
+    safeKey "fn/spec.field".toList = safeKey "fn/spec/field".toList ∧ Verbatim "fn/spec.field".toList ∧
+    (let sfx : Str → Str := fun s => if s = "fn/spec.field/".toList then "-AAAAAQ".toList else "-BBBBBQ".toList
+     safeKey "fn/spec.field/".toList = safeKey "fn/spec/field/".toList ∧
+     v2Key kz sfx "fn/spec.field/".toList ≠ v2Key kz sfx "fn/spec/field/".toList) := by decide
 
-/-- **F6e** "both ids longer than 63" in `distinct_partial` is necessary: the 63-character id that spells
-    the cut-and-hashed name of a longer id gets the same v2 name without any hash collision. -/
+set_option maxRecDepth 8192 in
+/-- … and the 70-character ids `a/xx…` and `a.xx…` under the default prefix with `v1=True`: two
+    names each, different V2 names, the same V1 name — a handler that never ran reads the other's record. -/
+example : let sfx : Str → Str := fun s => if s = "a/".toList ++ xs 68 then "-AAAAAQ".toList else "-BBBBBQ".toList
+    v2Key kz sfx ("a/".toList ++ xs 68) ≠ v2Key kz sfx ("a.".toList ++ xs 68) ∧
+    makeKeys kz true sfx ("a/".toList ++ xs 68) = [v2Key kz sfx ("a/".toList ++ xs 68), v1Key kz sfx ("a/".toList ++ xs 68)] ∧
+    makeKeys kz true sfx ("a.".toList ++ xs 68) = [v2Key kz sfx ("a.".toList ++ xs 68), v1Key kz sfx ("a/".toList ++ xs 68)] := by
+  decide
+
+/-- **F6e** the mixed case is not provable: the 63-character id that spells the cut-and-hashed name of a
+    longer id is taken verbatim and gets the same v2 name without any hash collision. -/
 theorem forged_witness :
     xs 56 ++ "-AAAAAQ".toList ≠ xs 64 ∧ (xs 56 ++ "-AAAAAQ".toList).length = 63 ∧
-    IdOk (xs 56 ++ "-AAAAAQ".toList) ∧
+    IdOk (xs 56 ++ "-AAAAAQ".toList) ∧ Verbatim (xs 56 ++ "-AAAAAQ".toList) ∧
     v2Key kz (constSfx "-AAAAAQ") (xs 56 ++ "-AAAAAQ".toList) = v2Key kz (constSfx "-AAAAAQ") (xs 64) := by
   decide
 
-/-- **F6e**, V1 variant: the mixed band is not provable either — the 46-character id that spells
-    the cut-and-hashed V1 name of a 50-character id is its own V2 (and V1) name. -/
+/-- **F6e**, V1 variant: the 46-character id that spells the cut-and-hashed V1 name of a 50-character id
+    is its own V2 (and V1) name. -/
 theorem forged_v1_witness :
     xs 39 ++ "-AAAAAQ".toList ≠ xs 50 ∧ IdOk (xs 39 ++ "-AAAAAQ".toList) ∧
     v1Key kz (constSfx "-AAAAAQ") (xs 50) ∈ makeKeys kz true (constSfx "-AAAAAQ") (xs 50) ∧
     makeKeys kz true (constSfx "-AAAAAQ") (xs 39 ++ "-AAAAAQ".toList) = [v1Key kz (constSfx "-AAAAAQ") (xs 50)] := by
+  decide
+
+/-- **F6e**, re-edged variant (new with c2cffd8, same class): the id `_fn` is re-formed to `xfn-AAAAAQ`;
+    the id that spells that name is taken verbatim: one annotation for two handlers. -/
+theorem forged_edged_witness :
+    "xfn-AAAAAQ".toList ≠ "_fn".toList ∧ IdOk "xfn-AAAAAQ".toList ∧ Verbatim "xfn-AAAAAQ".toList ∧
+    ¬ Verbatim "_fn".toList ∧ safeKey "xfn-AAAAAQ".toList ≠ safeKey "_fn".toList ∧
+    makeKeys kz true (constSfx "-AAAAAQ") "_fn".toList = ["kopf.zalando.org/xfn-AAAAAQ".toList] ∧
+    makeKeys kz true (constSfx "-AAAAAQ") "xfn-AAAAAQ".toList = ["kopf.zalando.org/xfn-AAAAAQ".toList] := by
   decide
 
 /-! ### The storages' own names (finding F6g) and ids outside the alphabet (F6i, fixed) -/
@@ -370,61 +486,63 @@ theorem reserved_diffbase_witness :
      | _ => false) = true := by
   decide
 
-/-- **F6d beyond 63 characters**: the V1 key depends on the id only through its safe form, so two
-    ids of ANY length with equal safe forms share their V1 name (their V2 names differ as soon as
-    the digests of the ids do) … -/
-theorem safe_form_long_v1_witness (p : Str) (sfx : Str → Str) (k k' : Str) (hs : safeKey k = safeKey k') :
-    v1Key p sfx k = v1Key p sfx k' := by
-  simp only [v1Key, hs]
-
-set_option maxRecDepth 8192 in
-/-- … e.g. the 70-character ids `a/xx…` and `a.xx…` under the default prefix with `v1=True`: two
-    names each, different V2 names, the same V1 name — a handler that never ran reads the other's record. -/
-example : let sfx : Str → Str := fun s => if s = "a/".toList ++ xs 68 then "-AAAAAQ".toList else "-BBBBBQ".toList
-    v2Key kz sfx ("a/".toList ++ xs 68) ≠ v2Key kz sfx ("a.".toList ++ xs 68) ∧
-    makeKeys kz true sfx ("a/".toList ++ xs 68) = [v2Key kz sfx ("a/".toList ++ xs 68), v1Key kz sfx ("a/".toList ++ xs 68)] ∧
-    makeKeys kz true sfx ("a.".toList ++ xs 68) = [v2Key kz sfx ("a.".toList ++ xs 68), v1Key kz sfx ("a/".toList ++ xs 68)] := by
-  decide
-
 /-- **F6i fixed** (kopf f95b306): kopf's own id of a lambda, `lambda:<path>:<line>`, is inside `IdOk`
-    now, its `:` becomes `_`, and the name is valid for every hash (`valid_names_partial` covers all
+    now, its `:` becomes `_`, and the name is valid for every hash (`valid_names` covers all
     such ids; this is the former witness turned regression, corpus `F6i.json`). -/
 theorem lambda_id_regression (sfx : Str → Str) :
-    IdOk "lambda:/a.py:1".toList ∧ EdgeOk "lambda:/a.py:1".toList ∧
+    IdOk "lambda:/a.py:1".toList ∧ Verbatim "lambda:/a.py:1".toList ∧
     v2Key kz sfx "lambda:/a.py:1".toList = "kopf.zalando.org/lambda_.a.py_1".toList ∧
     validQualified (v2Key kz sfx "lambda:/a.py:1".toList) = true := by
   have e : v2Key kz sfx "lambda:/a.py:1".toList = "kopf.zalando.org/lambda_.a.py_1".toList := by
-    simp [v2Key]; decide
+    rw [v2Key_eq, v2Name_verbatim (by decide) (by decide)]; decide
   refine ⟨by decide, by decide, e, ?_⟩
   rw [e]; decide
 
-/-- `IdOk` is still necessary: a character outside the alphabet (here a space) passes into the name -/
+/-- `IdChars` is still necessary: a character outside the alphabet (here a space) passes into the name
+    (only the first and the last character are repaired) -/
 theorem charset_witness (sfx : Str → Str) :
-    ¬ IdOk "my fn".toList ∧ EdgeOk "my fn".toList ∧ validQualified (v2Key kz sfx "my fn".toList) = false := by
+    ¬ IdChars "my fn".toList ∧ Verbatim "my fn".toList ∧ validQualified (v2Key kz sfx "my fn".toList) = false := by
   have e : v2Key kz sfx "my fn".toList = "kopf.zalando.org/my fn".toList := by
-    simp [v2Key]; decide
+    rw [v2Key_eq, v2Name_verbatim (by decide) (by decide)]; decide
   refine ⟨by decide, by decide, ?_⟩
   rw [e]; decide
 
 /-! ## Non-vacuity (names) -/
 
 example : validPrefix kz = true ∧ validPrefix c0.pfx = true := by decide
-example : IdOk k0 ∧ EdgeOk k0 ∧ GoodSfx (env0.sfx k0) := by decide
-/-- a hashed id may end in anything: `EdgeOk` holds although the safe form ends in `.` -/
-example : EdgeOk (xs 63 ++ ['.']) ∧ lastAlnum (safeKey (xs 63 ++ ['.'])) = false := by decide
-example : IdOk "Outer.<locals>.fn/sub/spec.field".toList ∧
-    EdgeOk "Outer.<locals>.fn/sub/spec.field".toList := by decide
-/-- `valid_name_v1_partial`: there is room under the default prefix, and the suffix has one length -/
-example : v1Fits kz env0.sfx = true ∧ (env0.sfx (safeKey k0)).length ≤ (env0.sfx []).length := by decide
+example : IdChars k0 ∧ GoodSfx (env0.sfx k0) ∧ RealSfx (env0.sfx k0) := by decide
+/-- ids of every kind meet `IdChars`: qualified names, bad edges on both sides, the empty id -/
+example : IdChars "Outer.<locals>.fn/sub/spec.field".toList ∧ IdChars "_private/".toList ∧ IdChars [] ∧
+    ¬ Verbatim "_private/".toList ∧ Verbatim "Outer.<locals>.fn/sub/spec.field".toList := by decide
+/-- `valid_name_v1` / `valid_names`: there is room under the default prefix, and the suffix has one length -/
+example : v1Fits kz env0.sfx = true ∧ (env0.sfx k0).length ≤ (env0.sfx []).length ∧
+    (env0.sfx (safeKey k0)).length ≤ (env0.sfx []).length := by decide
+/-- `names_unchanged_of_valid`: a plain id under the default prefix (hashed V1 name) had valid names -/
+example : validNamePart (v2Raw env0.sfx (xs 50)) = true ∧ validNamePart (v1Raw kz env0.sfx (xs 50)) = true ∧
+    (makeKeysOld kz true env0.sfx (xs 50)).length = 2 := by decide
+/-- `changed_only_invalid` is about something: `_fn` did change -/
+example : v2Name env0.sfx "_fn".toList ≠ v2Raw env0.sfx "_fn".toList := by decide
 /-- `distinct_partial`: two long ids sharing a 64-character prefix, different (equal-length) suffixes -/
 example : let sfx : Str → Str := fun k => if k.length = 64 then "-AAAAAQ".toList else "-BBBBBQ".toList
-    (xs 64).length > 63 ∧ (xs 65).length > 63 ∧ (sfx (xs 64)).length = (sfx (xs 65)).length ∧ sfx (xs 64) ≠ sfx (xs 65) := by
+    (xs 64).length > 63 ∧ (xs 65).length > 63 ∧ (sfx (xs 64)).length = (sfx (xs 65)).length ∧ sfx (xs 64) ≠ sfx (xs 65) ∧
+    lastAlnum (sfx (xs 64)) = true ∧ lastAlnum (sfx (xs 65)) = true := by
   decide
-
+/-- `distinct_reformed_partial` / `isolation_ids_reformed_partial`: a long id and a bad-edged short id, a hash
+    that tells all four strings apart, no digest ending `kopf-managed` -/
+example : let sfx : Str → Str := fun s => if s = xs 64 then "-AAAAAQ".toList else if s = "_fn/".toList then "-BBBBBQ".toList
+      else if s = "_fn.".toList then "-CCCCCQ".toList else "-DDDDDQ".toList
+    ((xs 64).length > 63 ∨ ¬ Verbatim (xs 64)) ∧ (("_fn/".toList).length > 63 ∨ ¬ Verbatim "_fn/".toList) ∧
+    (∀ t ∈ [sfx (xs 64), sfx (safeKey (xs 64))], ∀ t' ∈ [sfx "_fn/".toList, sfx (safeKey "_fn/".toList)],
+      t.length = t'.length ∧ t ≠ t') ∧
+    (∀ t' ∈ [sfx "_fn/".toList, sfx (safeKey "_fn/".toList)], t'.isSuffixOf "kopf-managed".toList = false) := by
+  decide
+/-- `forged_exact`, right-hand side met: the forged pair of `forged_edged_witness` -/
+example : safeKey "xfn-AAAAAQ".toList = v2Name (constSfx "-AAAAAQ") "_fn".toList := by decide
 
 /-- `isolation_ids_short_partial` (first alternative of `hone`): `v1 = False`, a field handler and a sub-handler with different safe forms -/
 def c1 : AnnCfg := ⟨kz, false, false, "touch-dummy".toList⟩
 example : (markKey (isDRS body0) "fn/spec.a".toList).length ≤ 63 ∧ (markKey (isDRS body0) "fn/sub_b".toList).length ≤ 63 ∧
+    Verbatim (markKey (isDRS body0) "fn/spec.a".toList) ∧ Verbatim (markKey (isDRS body0) "fn/sub_b".toList) ∧
     safeKey "fn/spec.a".toList ≠ safeKey "fn/sub_b".toList ∧
     safeKey (markKey (isDRS body0) "fn/sub_b".toList) ≠ "kopf-managed".toList ∧ c1.pfx ≠ [] := by decide
 example : (match annStore env0 c1 body0 (obj []) "fn/spec.a".toList r0, annPurge env0 c1 body0 (obj []) "fn/spec.a".toList with
@@ -434,8 +552,10 @@ example : (match annStore env0 c1 body0 (obj []) "fn/spec.a".toList r0, annPurge
     forms and (for a hash that tells them apart) different digests -/
 example : let sfx : Str → Str := fun s => if s = xs 50 then "-AAAAAQ".toList else "-BBBBBQ".toList
     63 < (pre kz).length + (xs 50).length ∧ 63 < (pre kz).length + ("y".toList ++ xs 49).length ∧
+    Verbatim (xs 50) ∧ Verbatim ("y".toList ++ xs 49) ∧
     (pre kz).length + (sfx (safeKey (xs 50))).length < 63 ∧
     (sfx (safeKey (xs 50))).length = (sfx (safeKey ("y".toList ++ xs 49))).length ∧
+    lastAlnum (sfx (safeKey (xs 50))) = true ∧
     sfx (safeKey (xs 50)) ≠ sfx (safeKey ("y".toList ++ xs 49)) ∧
     safeKey (xs 50) ≠ safeKey ("y".toList ++ xs 49) ∧
     (makeKeys kz true sfx (xs 50)).length = 2 := by
